@@ -54,6 +54,10 @@ long long clock_now_ns() noexcept;            // scheduling point + virtual time
 long long clock_peek_ns() noexcept;           // virtual time, no scheduling point
 void sleep_until_ns(long long deadline_ns) noexcept;
 int epoll_wait_hook(int epfd, epoll_event* ev, int maxev, int timeout) noexcept;
+// io_uring_enter(fd, to_submit, min_complete, flags, sig, sigsz): submit, then wait for completions without sleeping in the kernel
+long uring_enter_hook(long fd, long to_submit, long min_complete, long flags, const void* sig, long sigsz) noexcept;
+template <class A, class B, class C, class D, class E, class F>
+inline long uring_enter_hook(A fd, B to_submit, C min_complete, D flags, E sig, F sigsz) noexcept { return uring_enter_hook((long)fd, (long)to_submit, (long)min_complete, (long)flags, (const void*)sig, (long)sigsz); }
 // generated I/O faults: the n-th readv (which=0) / writev (which=1) call of the case fails with `err` (>0) or transfers
 // half of what was asked (err<0).  Returns 0 when the call should go through unchanged.
 long io_fault(int which) noexcept;
